@@ -196,7 +196,43 @@ func (g *thrGroup) reconstructStateful(run *mon.Run, signers []int, trusted bool
 		if !ok || err != nil {
 			run.Violate("C06:group-signature-invalid", "reference group signature does not verify under the group key", rep)
 		}
+		// objects that reconstructed earlier (other groups, other messages) are asked again after this one
+		// did: what one object returned once it keeps returning, whatever other objects do in between
+		for _, old := range olderInspectors(ins, g.E) {
+			got, e := old.ins.ThresholdSignature()
+			run.Eval(1)
+			run.Count("reconstructions.older-object-asked-again", 1)
+			if e != nil || !bytes.Equal(got, old.want) {
+				run.Violate("C06:stateful-object-disturbed-by-another-object", fmt.Sprintf("an object that had returned the threshold signature %x returns (%x, %v) after OTHER objects reconstructed theirs", old.want, []byte(got), e), rep)
+				return
+			}
+		}
 	})
+}
+
+type keptInspector struct {
+	ins  crypto.ThresholdSignatureInspector
+	want []byte
+}
+
+var (
+	keptMu   sync.Mutex
+	keptRing []keptInspector
+)
+
+// olderInspectors registers (ins, want) and returns up to three objects registered earlier.
+func olderInspectors(ins crypto.ThresholdSignatureInspector, want []byte) []keptInspector {
+	keptMu.Lock()
+	defer keptMu.Unlock()
+	var out []keptInspector
+	for i := len(keptRing) - 1; i >= 0 && len(out) < 3; i -= 1 + len(keptRing)/7 {
+		out = append(out, keptRing[i])
+	}
+	keptRing = append(keptRing, keptInspector{ins, append([]byte{}, want...)})
+	if len(keptRing) > 64 {
+		keptRing = keptRing[len(keptRing)-64:]
+	}
+	return out
 }
 
 // c06CraftedPolynomials: groups whose polynomial is chosen by the harness (any t+1 share values define
